@@ -235,4 +235,19 @@ theorem readFile_writeFile {H : Type} (hc : HeaderCodec H) (om : Omit) (h : H) (
   obtain ⟨s, hs, hr⟩ := readAll_encodeAll om rs hwf
   exact ⟨hc.encode h ++ s, by simp [writeFile, hs], by simp [readFile, hc.decode_encode, hr]⟩
 
+/-- The BGZF layer as a parameter bundled with the law assumed of it (C01 proves it for the real one): for every
+write concurrency `wc` and read concurrency `rd`, reading what was written gives back the bytes written, whatever
+the way they were cut into `Write` calls and blocks. -/
+structure BgzfCodec where
+  write : (wc : Nat) → List Byte → List Byte
+  read : (rd : Nat) → List Byte → Option (List Byte)
+  read_write : ∀ (wc rd : Nat) (bs : List Byte), read rd (write wc bs) = some bs
+
+theorem readFile_writeFile_bgzf {H : Type} (bg : BgzfCodec) (hc : HeaderCodec H) (om : Omit) (wc rd : Nat) (h : H)
+    (rs : List Record) (hwf : ∀ r ∈ rs, WF (hc.nrefs h) r) :
+    ∃ bytes, writeFile hc h rs = .ok bytes ∧
+      (bg.read rd (bg.write wc bytes)).bind (readFile hc om) = some (h, rs.map (expected om), none) := by
+  obtain ⟨bytes, hw, hr⟩ := readFile_writeFile hc om h rs hwf
+  exact ⟨bytes, hw, by simp [bg.read_write, hr]⟩
+
 end Hts.Model.Bam
